@@ -840,4 +840,506 @@ inductive Reach (g : Graph) : Id → Prop
   | entry : Reach g entry
   | step {i t : Id} {es : List Id} : Reach g i → g.edges i = some es → t ∈ es → Reach g t
 
+
+/-! ### insert-only builds below the degree bound keep every node reachable -/
+
+theorem find_filter_ne (ns : List (Id × List Id)) (i j : Id) (h : j ≠ i) :
+    (ns.filter (fun n => n.1 != i)).find? (fun n => n.1 == j) = ns.find? (fun n => n.1 == j) := by
+  induction ns with
+  | nil => rfl
+  | cons x xs ih =>
+    by_cases hx : x.1 = i
+    · have hxj : ¬ x.1 = j := fun e => h (e ▸ hx)
+      rw [List.filter_cons_of_neg (by simp [hx]), List.find?_cons_of_neg (by simpa using hxj), ih]
+    · rw [List.filter_cons_of_pos (by simpa using hx)]
+      by_cases hxj : x.1 = j
+      · rw [List.find?_cons_of_pos (by simpa using hxj), List.find?_cons_of_pos (by simpa using hxj)]
+      · rw [List.find?_cons_of_neg (by simpa using hxj), List.find?_cons_of_neg (by simpa using hxj), ih]
+
+theorem edges_put_self (g : Graph) (i : Id) (es : List Id) :
+    ({ g with nodes := putNode g.nodes i es } : Graph).edges i = some es := by
+  show ((putNode g.nodes i es).find? (fun n => n.1 == i)).map (·.2) = some es
+  unfold putNode
+  rw [List.find?_cons_of_pos (by simp)]
+  rfl
+
+theorem edges_put_other (g : Graph) (i j : Id) (es : List Id) (h : j ≠ i) :
+    ({ g with nodes := putNode g.nodes i es } : Graph).edges j = g.edges j := by
+  show ((putNode g.nodes i es).find? (fun n => n.1 == j)).map (·.2) = (g.nodes.find? (fun n => n.1 == j)).map (·.2)
+  unfold putNode
+  rw [List.find?_cons_of_neg (by simpa using fun e => h e.symm), find_filter_ne _ _ _ h]
+
+theorem find_of_mem_nodup (ns : List (Id × List Id)) (hk : (ns.map (·.1)).Nodup) (j : Id) (es : List Id)
+    (h : (j, es) ∈ ns) : ns.find? (fun n => n.1 == j) = some (j, es) := by
+  induction ns with
+  | nil => simp at h
+  | cons x xs ih =>
+    rw [List.map_cons, List.nodup_cons] at hk
+    rcases List.mem_cons.mp h with h' | h'
+    · rw [← h']; rw [List.find?_cons_of_pos (by simp)]
+    · have hxj : ¬ x.1 = j := by
+        intro e; apply hk.1; rw [e]; exact List.mem_map.mpr ⟨_, h', rfl⟩
+      rw [List.find?_cons_of_neg (by simpa using hxj)]
+      exact ih hk.2 h'
+
+theorem mem_nodes_edges (g : Graph) (hk : g.keys.Nodup) (j : Id) (es : List Id) (h : (j, es) ∈ g.nodes) :
+    g.edges j = some es := by
+  unfold Graph.edges
+  rw [find_of_mem_nodup g.nodes hk j es h]
+  rfl
+
+theorem Reach_mono (g g' : Graph)
+    (h : ∀ i es, g.edges i = some es → ∃ es', g'.edges i = some es' ∧ ∀ t ∈ es, t ∈ es') :
+    ∀ i, Reach g i → Reach g' i := by
+  intro i hr
+  induction hr with
+  | entry => exact Reach.entry
+  | step _ hes ht ih =>
+    obtain ⟨es', h1, h2⟩ := h _ _ hes
+    exact Reach.step ih h1 (h2 _ ht)
+
+/-! robustPrune: more facts -/
+
+theorem robustPrune_acc_sub (R : Nat) (ap : Id → Id → D) (self : Id) (cs : List (Elem D)) (acc : List Id) :
+    ∀ t ∈ acc, t ∈ robustPrune R ap self cs acc := by
+  induction cs generalizing acc with
+  | nil => intro t ht; exact ht
+  | cons c rest ih =>
+    intro t ht
+    unfold robustPrune
+    split
+    · exact ih acc t ht
+    · simp only
+      split
+      · exact List.mem_append_left _ ht
+      · exact ih _ t (List.mem_append_left _ ht)
+
+theorem robustPrune_nonempty (R : Nat) (ap : Id → Id → D) (self : Id) (cs : List (Elem D))
+    (h : ∃ c ∈ cs, c.id ≠ self) : robustPrune R ap self cs [] ≠ [] := by
+  induction cs with
+  | nil => obtain ⟨c, hc, _⟩ := h; simp at hc
+  | cons c rest ih =>
+    unfold robustPrune
+    split
+    · rename_i hcond
+      apply ih
+      obtain ⟨c', hc', hne⟩ := h
+      rcases List.mem_cons.mp hc' with rfl | h'
+      · simp [hne] at hcond
+      · exact ⟨c', h', hne⟩
+    · simp only
+      split
+      · simp
+      · intro hnil
+        have := robustPrune_acc_sub R ap self rest ([] ++ [c.id]) c.id (by simp)
+        rw [hnil] at this; simp at this
+
+theorem robustPrune_nodup (R : Nat) (ap : Id → Id → D) (self : Id) (cs : List (Elem D)) (acc : List Id)
+    (hcs : (cs.map (·.id)).Nodup) (hacc : acc.Nodup) (hdis : ∀ t ∈ acc, t ∉ cs.map (·.id)) :
+    (robustPrune R ap self cs acc).Nodup := by
+  induction cs generalizing acc with
+  | nil => exact hacc
+  | cons c rest ih =>
+    rw [List.map_cons, List.nodup_cons] at hcs
+    unfold robustPrune
+    have hdis' : ∀ t ∈ acc, t ∉ rest.map (·.id) := fun t ht hm => hdis t ht (List.mem_cons_of_mem _ hm)
+    split
+    · exact ih acc hcs.2 hacc hdis'
+    · have hacc' : (acc ++ [c.id]).Nodup := by
+        rw [List.nodup_append]
+        refine ⟨hacc, by simp, ?_⟩
+        intro x hx y hy hxy
+        simp at hy
+        rw [hy] at hxy; rw [hxy] at hx
+        exact hdis _ hx (by simp)
+      simp only
+      split
+      · exact hacc'
+      · apply ih _ hcs.2 hacc'
+        intro t ht
+        rcases List.mem_append.mp ht with h | h
+        · exact hdis' t h
+        · simp at h; subst h; exact hcs.1
+
+/-- the back-edge loop when no node is at its degree bound: the new point is appended everywhere -/
+theorem backEdges_noprune (cfg : Cfg) (ds : Dists D) (a : Id) (bs : List Id) (g g' : Graph) (hbs : bs.Nodup)
+    (hroom : ∀ b ∈ bs, ∃ eb, g.edges b = some eb ∧ eb.length + 1 ≤ cfg.degreeBound)
+    (h : backEdges cfg ds a bs g = .ok g') :
+    ∀ j, g'.edges j = if j ∈ bs then (g.edges j).map (· ++ [a]) else g.edges j := by
+  induction bs generalizing g with
+  | nil => simp [backEdges] at h; subst h; intro j; simp
+  | cons b rest ih =>
+    rw [List.nodup_cons] at hbs
+    unfold backEdges at h
+    obtain ⟨eb, heb, hlen⟩ := hroom b List.mem_cons_self
+    rw [heb] at h
+    simp only at h
+    have hno : ¬ (eb.length + 1 > cfg.degreeBound) := by omega
+    rw [if_neg hno] at h
+    have hroom' : ∀ b' ∈ rest, ∃ eb', ({ g with nodes := putNode g.nodes b (eb ++ [a]) } : Graph).edges b' = some eb' ∧
+        eb'.length + 1 ≤ cfg.degreeBound := by
+      intro b' hb'
+      have hne : b' ≠ b := fun e => hbs.1 (e ▸ hb')
+      rw [edges_put_other _ _ _ _ hne]
+      exact hroom b' (List.mem_cons_of_mem _ hb')
+    have := ih _ hbs.2 hroom' h
+    intro j
+    rw [this j]
+    by_cases hjb : j = b
+    · subst hjb
+      have : j ∉ rest := hbs.1
+      simp [this, edges_put_self, heb]
+    · rw [edges_put_other _ _ _ _ hjb]
+      simp [hjb]
+
+
+
+theorem foldl_bubble_perm (es acc : List (Elem D)) :
+    (es.foldl (fun acc e => bubble e acc) acc).Perm (acc ++ es) := by
+  induction es generalizing acc with
+  | nil => simp
+  | cons e es ih =>
+    simp only [List.foldl_cons]
+    refine (ih (bubble e acc)).trans ?_
+    have h1 : (bubble e acc ++ es).Perm ((e :: acc) ++ es) := List.Perm.append_right es (bubble_perm e acc)
+    refine h1.trans ?_
+    simp only [List.cons_append]
+    exact (List.perm_middle (a := e) (l₁ := acc) (l₂ := es)).symm
+
+theorem sortFrom_perm (n : Nat) (l : List (Elem D)) : (sortFrom n l).Perm l := by
+  unfold sortFrom
+  refine (foldl_bubble_perm _ _).trans ?_
+  rw [List.take_append_drop]
+
+/-- what `insertSinglePoint` gets from its greedy search: distinct visited ids, the entry node among them -/
+theorem greedy_visited_facts (v : View) (dq : Id → D) (ss fuel : Nat) (he : v.hasVec entry = true)
+    (rs : DistSet D) (vis : List (Elem D)) (h : greedySearch v dq 1 ss none (fuel + 1) = .ok (rs, vis)) :
+    (vis.map (·.id)).Nodup ∧ ∃ e ∈ vis, e.id = entry := by
+  have hss : 1 ≤ ss := by
+    apply Classical.byContradiction
+    intro hn
+    unfold greedySearch at h
+    rw [if_pos (by omega)] at h
+    cases h
+  rw [greedySearch_eq v dq 1 ss none _ hss he] at h
+  split at h
+  · cases h
+  · rename_i st hst
+    cases h
+    have hI0 := initState_inv v dq 1 ss none he
+    obtain ⟨hI, _⟩ := loop_induct v dq none ss (LInv v dq none)
+      (fun st e es h1 h2 _ => LInv_step v dq none ss st e es h1 h2) _ _ st hst hI0
+    refine ⟨(((sortFrom_perm 0 st.visited).map (·.id)).nodup_iff).mpr hI.vnd, ?_⟩
+    -- the first visit is the entry node
+    have hitems : (initState v dq 1 ss none).search.items = [({ id := entry, dist := dq entry } : Elem D)] := by
+      show ((DistSet.new ss : DistSet D).addWithLimit1 dq entry).items = _
+      rw [addWithLimit1_room dq _ entry (by simp [DistSet.new]; omega) (by simp [DistSet.new])]
+      simp [DistSet.new, bubble]
+    have hnext : nextUnvisited ss (initState v dq 1 ss none).search.items = some ({ id := entry, dist := dq entry } : Elem D) := by
+      rw [hitems]
+      unfold nextUnvisited
+      have : min ([({ id := entry, dist := dq entry } : Elem D)]).length ss = 1 := by simp; omega
+      rw [this]
+      simp
+    rw [loop_succ, hnext] at hst
+    simp only at hst
+    split at hst
+    · cases hst
+    · rename_i es hes
+      have := loop_induct v dq none ss (fun st => ∃ e ∈ st.visited, e.id = entry)
+        (fun st e es h1 _ _ => by
+          obtain ⟨x, hx, hxe⟩ := h1
+          exact ⟨x, List.mem_append_left _ hx, hxe⟩) _ _ st hst
+        ⟨({ id := entry, dist := dq entry } : Elem D), List.mem_append_right _ (List.mem_singleton.mpr rfl), rfl⟩
+      obtain ⟨e, he', hee⟩ := this.1
+      exact ⟨e, (mem_sortFrom 0 _).mpr he', hee⟩
+
+def Conn (g : Graph) : Prop := ∀ i ∈ g.keys, Reach g i
+
+/-- invariant of insert-only builds below the degree bound -/
+structure BInv (R : Nat) (g : Graph) : Prop where
+  p : P R g (fun _ => False)
+  he : entry ∈ g.keys
+  conn : Conn g
+  nd : ∀ n ∈ g.nodes, n.2.Nodup
+
+theorem insertPoint_BInv (cfg : Cfg) (ds : Dists D) (hR : 1 ≤ cfg.degreeBound) (g g' : Graph) (a : Id)
+    (hB : BInv cfg.degreeBound g) (ha : a ∉ g.keys) (hroom : g.keys.length ≤ cfg.degreeBound)
+    (h : insertPoint cfg ds g a = .ok g') : BInv cfg.degreeBound g' := by
+  obtain ⟨hP', hk', _⟩ := insertPoint_P cfg ds hR _ g g' a hB.p h
+  have hP'' : P cfg.degreeBound g' (fun _ => False) := hP'.congr (fun i hi => hi.1)
+  unfold insertPoint at h
+  simp only at h
+  split at h
+  · cases h
+  · rename_i rs vis hgs
+    have hae : a ≠ entry := fun e => ha (e ▸ hB.he)
+    have hev : ({ g with vecs := setVec g.vecs a } : Graph).view.hasVec entry = true := by
+      have : entry ∈ setVec g.vecs a := setVec_mem.mpr (Or.inr ((hB.p.kv _).mp hB.he))
+      simpa [Graph.view, Graph.hasVec] using this
+    obtain ⟨hvnd, e0, he0, he0e⟩ := greedy_visited_facts _ _ _ _ hev rs vis hgs
+    have hvis := greedySearch_visited _ _ _ _ _ _ rs vis hgs
+    -- the new edge list
+    have hes_sub : ∀ t ∈ robustPrune cfg.degreeBound ds.ap a vis [], t ≠ a ∧ t ∈ g.keys := by
+      intro t ht
+      rcases robustPrune_sub _ _ _ _ _ t ht with h | ⟨hne, c, hc, rfl⟩
+      · simp at h
+      · exact ⟨hne, edges_isSome_key (g := { g with vecs := setVec g.vecs a }) (hvis c hc)⟩
+    have hes_nd : (robustPrune cfg.degreeBound ds.ap a vis []).Nodup :=
+      robustPrune_nodup _ _ _ _ _ hvnd (by simp) (by simp)
+    have hes_ne : robustPrune cfg.degreeBound ds.ap a vis [] ≠ [] :=
+      robustPrune_nonempty _ _ _ _ ⟨e0, he0, by rw [he0e]; exact fun e => hae e.symm⟩
+    generalize robustPrune cfg.degreeBound ds.ap a vis [] = es at h hes_sub hes_nd hes_ne
+    -- graph after Set + Put
+    let g2 : Graph := { g with vecs := setVec g.vecs a, nodes := putNode g.nodes a es }
+    have hg2a : g2.edges a = some es := edges_put_self _ a es
+    have hg2o : ∀ j, j ≠ a → g2.edges j = g.edges j := fun j hj => edges_put_other { g with vecs := setVec g.vecs a } a j es hj
+    -- every neighbour has room for one more edge
+    have hroom2 : ∀ b ∈ es, ∃ eb, g2.edges b = some eb ∧ eb.length + 1 ≤ cfg.degreeBound := by
+      intro b hb
+      obtain ⟨hba, hbk⟩ := hes_sub b hb
+      obtain ⟨n, hn, hnb⟩ := List.mem_map.mp hbk
+      have hn' : (b, n.2) ∈ g.nodes := by rw [← hnb]; exact hn
+      refine ⟨n.2, by rw [hg2o b hba]; exact mem_nodes_edges g hB.p.nodupK b n.2 hn', ?_⟩
+      have hnd : (b :: n.2).Nodup := by
+        refine List.nodup_cons.mpr ⟨?_, hB.nd n hn⟩
+        intro hm
+        exact ((hB.p.clean n hn (fun f => f)).1 b hm).1 hnb.symm
+      have hsub : (b :: n.2) ⊆ g.keys := by
+        intro t ht
+        rcases List.mem_cons.mp ht with rfl | ht
+        · exact hbk
+        · exact ((hB.p.clean n hn (fun f => f)).1 t ht).2
+      have := List.Nodup.length_le_of_subset hnd hsub
+      simp at this; omega
+    have hfin := backEdges_noprune cfg ds a es g2 g' hes_nd hroom2 h
+    -- edges of the final graph
+    have hold : ∀ i eb, g.edges i = some eb → ∃ eb', g'.edges i = some eb' ∧ ∀ t ∈ eb, t ∈ eb' := by
+      intro i eb hi
+      have hia : i ≠ a := fun e => ha (e ▸ edges_some_key hi)
+      rw [hfin i, hg2o i hia, hi]
+      by_cases hie : i ∈ es
+      · simp only [hie, if_true, Option.map_some]
+        exact ⟨_, rfl, fun t ht => List.mem_append_left _ ht⟩
+      · simp only [hie, if_false]
+        exact ⟨_, rfl, fun t ht => ht⟩
+    refine ⟨hP'', (hk' _).mpr (Or.inr hB.he), ?_, ?_⟩
+    · -- connectivity
+      intro j hj
+      rcases (hk' j).mp hj with rfl | hjk
+      · obtain ⟨b, hb⟩ := List.exists_mem_of_ne_nil _ hes_ne
+        obtain ⟨hba, hbk⟩ := hes_sub b hb
+        have hrb : Reach g' b := Reach_mono g g' hold b (hB.conn b hbk)
+        obtain ⟨eb, heb, _⟩ := hroom2 b hb
+        have : g'.edges b = some (eb ++ [j]) := by rw [hfin b, heb]; simp [hb]
+        exact Reach.step hrb this (by simp)
+      · exact Reach_mono g g' hold j (hB.conn j hjk)
+    · -- edge lists without duplicates
+      intro n hn
+      have hne : g'.edges n.1 = some n.2 := mem_nodes_edges g' hP''.nodupK n.1 n.2 hn
+      rw [hfin n.1] at hne
+      by_cases hna : n.1 = a
+      · have hnes : n.1 ∉ es := fun hm => (hes_sub _ hm).1 hna
+        rw [if_neg hnes, hna, hg2a] at hne
+        cases hne; exact hes_nd
+      · rw [hg2o _ hna] at hne
+        by_cases hnes : n.1 ∈ es
+        · rw [if_pos hnes] at hne
+          cases hg : g.edges n.1 with
+          | none => rw [hg] at hne; simp at hne
+          | some eb =>
+            rw [hg] at hne
+            simp only [Option.map_some, Option.some.injEq] at hne
+            rw [← hne]
+            have hebn := edges_some hg
+            rw [List.nodup_append]
+            refine ⟨hB.nd _ hebn, by simp, ?_⟩
+            intro x hx y hy hxy
+            simp at hy
+            rw [hy] at hxy; rw [hxy] at hx
+            exact ha ((hB.p.clean _ hebn (fun f => f)).1 a hx).2
+        · rw [if_neg hnes] at hne
+          exact hB.nd _ (edges_some hne)
+
+
+
+theorem BInv_maxId (R : Nat) (g : Graph) (m : Nat) (h : BInv R g) : BInv R { g with maxId := m } := by
+  refine ⟨⟨h.p.nodupK, h.p.nodupV, h.p.kv, h.p.clean⟩, h.he, ?_, h.nd⟩
+  intro i hi
+  exact Reach_mono g { g with maxId := m } (fun i es he => ⟨es, he, fun t ht => ht⟩) i (h.conn i hi)
+
+theorem deleteNodes_nil (g : Graph) : deleteNodes g [] = g := by
+  cases g
+  simp [deleteNodes, List.filter_eq_self]
+
+/-- an insert (point not stored, vector given) while nothing has been filed as updated / deleted -/
+theorem classify_insert (cfg : Cfg) (ds : Dists D) (acc acc' : Acc) (c : Change) (ht : acc.touched = [])
+    (hex : acc.g.hasVec c.id = false) (hv : c.hasVector = true) (h : classify true cfg ds acc c = .ok acc') :
+    ∃ g', insertPoint cfg ds { acc.g with maxId := if c.id > acc.g.maxId then c.id else acc.g.maxId } c.id = .ok g' ∧
+      acc'.g = g' ∧ acc'.updated = acc.updated ∧ acc'.deleted = acc.deleted ∧ acc'.touched = acc.touched := by
+  unfold classify at h
+  split at h
+  · cases h
+  · split at h
+    · cases h
+    · simp only [ht, List.contains_nil, Bool.and_false, Bool.false_eq_true, if_false, hex, hv] at h
+      split at h
+      · cases h
+      · rename_i g' hg'
+        cases h
+        exact ⟨g', hg', rfl, rfl, rfl, by simp [ht]⟩
+
+theorem classifyAll_inserts (cfg : Cfg) (ds : Dists D) (hR : 1 ≤ cfg.degreeBound) (cs : List Change) (acc acc' : Acc)
+    (hB : BInv cfg.degreeBound acc.g) (ht : acc.touched = []) (hu : acc.updated = []) (hd : acc.deleted = [])
+    (hall : ∀ c ∈ cs, c.hasVector = true) (hnd : (cs.map (·.id)).Nodup) (hfr : ∀ c ∈ cs, c.id ∉ acc.g.keys)
+    (hroom : acc.g.keys.length + cs.length ≤ cfg.degreeBound + 1)
+    (h : classifyAll true cfg ds cs acc = .ok acc') :
+    BInv cfg.degreeBound acc'.g ∧ acc'.touched = [] ∧ acc'.updated = [] ∧ acc'.deleted = [] := by
+  induction cs generalizing acc with
+  | nil => simp [classifyAll] at h; subst h; exact ⟨hB, ht, hu, hd⟩
+  | cons c rest ih =>
+    unfold classifyAll at h
+    split at h
+    · cases h
+    · rename_i acc1 h1
+      have hck : c.id ∉ acc.g.keys := hfr c List.mem_cons_self
+      have hex : acc.g.hasVec c.id = false := by
+        have : c.id ∉ acc.g.vecs := fun hm => hck ((hB.p.kv _).mpr hm)
+        simpa [Graph.hasVec] using this
+      obtain ⟨g', hg', hga, hua, hda, hta⟩ := classify_insert cfg ds acc acc1 c ht hex (hall c List.mem_cons_self) h1
+      have hB0 := BInv_maxId cfg.degreeBound acc.g (if c.id > acc.g.maxId then c.id else acc.g.maxId) hB
+      simp only [List.length_cons] at hroom
+      have hB1 : BInv cfg.degreeBound g' :=
+        insertPoint_BInv cfg ds hR _ g' c.id hB0 hck (by show acc.g.keys.length ≤ _; omega) hg'
+      obtain ⟨hP1, hk1, _⟩ := insertPoint_P cfg ds hR _ _ g' c.id hB0.p hg'
+      have hk1' : ∀ i, i ∈ g'.keys ↔ i = c.id ∨ i ∈ acc.g.keys := hk1
+      have hlen : g'.keys.length = acc.g.keys.length + 1 := by
+        have : g'.keys.Perm (c.id :: acc.g.keys) := by
+          apply (List.perm_ext_iff_of_nodup hP1.nodupK (List.nodup_cons.mpr ⟨hck, hB.p.nodupK⟩)).mpr
+          intro i; rw [hk1' i]; simp
+        simpa using this.length_eq
+      rw [List.map_cons, List.nodup_cons] at hnd
+      apply ih acc1 (hga ▸ hB1) (hta.trans ht) (hua.trans hu) (hda.trans hd)
+        (fun c' hc' => hall c' (List.mem_cons_of_mem _ hc')) hnd.2
+      · intro c' hc'
+        rw [hga, hk1']
+        rintro (h | h)
+        · exact hnd.1 (h ▸ List.mem_map.mpr ⟨c', hc', rfl⟩)
+        · exact hfr c' (List.mem_cons_of_mem _ hc') h
+      · rw [hga]; omega
+      · exact h
+
+theorem apply_inserts_BInv (cfg : Cfg) (ds : Dists D) (hR : 1 ≤ cfg.degreeBound) (ord : List Id) (g g' : Graph)
+    (batch : List Change) (hB : BInv cfg.degreeBound g) (hall : ∀ c ∈ batch, c.hasVector = true)
+    (hnd : (batch.map (·.id)).Nodup) (hfr : ∀ c ∈ batch, c.id ∉ g.keys)
+    (hroom : g.keys.length + batch.length ≤ cfg.degreeBound + 1) (h : apply cfg ds ord g batch = .ok g') :
+    BInv cfg.degreeBound g' := by
+  unfold apply applyV at h
+  split at h
+  · cases h
+  · rename_i acc hacc
+    obtain ⟨hB', ht, hu, hd⟩ := classifyAll_inserts cfg ds hR batch { g := g } acc hB rfl rfl rfl hall hnd hfr hroom hacc
+    simp only [ht, List.isEmpty_nil, if_true, hu, hd, deleteNodes_nil, reinsertAll] at h
+    cases h
+    exact hB'
+
+theorem liveAfter_inserts (L : List Id) (batch : List Change) (hall : ∀ c ∈ batch, c.hasVector = true)
+    (hnd : (batch.map (·.id)).Nodup) (hfr : ∀ c ∈ batch, c.id ∉ L) :
+    liveAfter L batch = L ++ batch.map (·.id) := by
+  induction batch generalizing L with
+  | nil => simp [liveAfter]
+  | cons c rest ih =>
+    rw [List.map_cons, List.nodup_cons] at hnd
+    have hc : c.id ∉ L := hfr c List.mem_cons_self
+    unfold liveAfter
+    rw [if_pos (hall c List.mem_cons_self)]
+    have : L.contains c.id = false := by simpa using hc
+    simp only [this, Bool.false_eq_true, if_false]
+    rw [ih _ (fun c' hc' => hall c' (List.mem_cons_of_mem _ hc')) hnd.2]
+    · simp
+    · intro c' hc' hm
+      rcases List.mem_append.mp hm with h | h
+      · exact hfr c' (List.mem_cons_of_mem _ hc') h
+      · simp at h; exact hnd.1 (h ▸ List.mem_map.mpr ⟨c', hc', rfl⟩)
+
+theorem liveAfter_len_mono (L : List Id) (batch : List Change) (hall : ∀ c ∈ batch, c.hasVector = true) :
+    L.length ≤ (liveAfter L batch).length := by
+  induction batch generalizing L with
+  | nil => simp [liveAfter]
+  | cons c rest ih =>
+    unfold liveAfter
+    rw [if_pos (hall c List.mem_cons_self)]
+    refine Nat.le_trans ?_ (ih _ (fun c' hc' => hall c' (List.mem_cons_of_mem _ hc')))
+    split
+    · exact Nat.le_refl _
+    · simp
+
+theorem run_len_mono (cfg : Cfg) (steps : List (Step D)) (g : Graph) (L : List Id)
+    (hall : ∀ st ∈ steps, ∀ c ∈ st.batch, c.hasVector = true) : L.length ≤ (run cfg steps (g, L)).2.length := by
+  induction steps generalizing g L with
+  | nil => simp [run]
+  | cons st rest ih =>
+    have hall' : ∀ st' ∈ rest, ∀ c ∈ st'.batch, c.hasVector = true := fun st' h => hall st' (List.mem_cons_of_mem _ h)
+    unfold run
+    split
+    · exact ih g L hall'
+    · exact Nat.le_trans (liveAfter_len_mono L st.batch (hall st List.mem_cons_self)) (ih _ _ hall')
+
+theorem BInv_init (R : Nat) : BInv R Graph.init := by
+  have hP := ((wf_iff R Graph.init []).mp (by unfold WF wfB Graph.init Graph.keys; simp [nodupB, entry])).1
+  refine ⟨hP, by simp [Graph.init, Graph.keys], ?_, ?_⟩
+  · intro i hi
+    have : i = entry := by simpa [Graph.init, Graph.keys] using hi
+    rw [this]; exact Reach.entry
+  · intro n hn
+    have : n = (entry, []) := by simpa [Graph.init] using hn
+    rw [this]; simp
+
+/-- insert-only histories whose collection stays within the degree bound: every node stays reachable -/
+theorem run_inserts_BInv (cfg : Cfg) (hR : 1 ≤ cfg.degreeBound) (steps : List (Step D)) (g : Graph) (L : List Id)
+    (hWF : WF cfg.degreeBound g L) (hB : BInv cfg.degreeBound g)
+    (hall : ∀ st ∈ steps, ∀ c ∈ st.batch, c.hasVector = true)
+    (hnd : ((steps.flatMap (·.batch)).map (·.id)).Nodup) (hfr : ∀ st ∈ steps, ∀ c ∈ st.batch, c.id ∉ g.keys)
+    (hsmall : (run cfg steps (g, L)).2.length ≤ cfg.degreeBound) :
+    BInv cfg.degreeBound (run cfg steps (g, L)).1 := by
+  induction steps generalizing g L with
+  | nil => exact hB
+  | cons st rest ih =>
+    have hall' : ∀ st' ∈ rest, ∀ c ∈ st'.batch, c.hasVector = true := fun st' h => hall st' (List.mem_cons_of_mem _ h)
+    rw [List.flatMap_cons, List.map_append, List.nodup_append] at hnd
+    obtain ⟨hnd1, hnd2, hnd3⟩ := hnd
+    unfold run at hsmall ⊢
+    split
+    · rename_i e he
+      rw [he] at hsmall
+      exact ih g L hWF hB hall' hnd2 (fun st' h => hfr st' (List.mem_cons_of_mem _ h)) hsmall
+    · rename_i g' hg'
+      rw [hg'] at hsmall
+      simp only at hsmall
+      have hWF' := C10_step_aux cfg hR st.ds st.ord g g' L st.batch hWF hg'
+      obtain ⟨⟨hkn, _, _, _⟩, hln, hle, hkl, _⟩ := (C10_wf_meaning_aux _ g L).mp hWF
+      have hfrL : ∀ c ∈ st.batch, c.id ∉ L := fun c hc hm => hfr st List.mem_cons_self c hc ((hkl _).mpr (Or.inr hm))
+      have hL' := liveAfter_inserts L st.batch (hall st List.mem_cons_self) hnd1 hfrL
+      have hklen : g.keys.length = L.length + 1 := by
+        have : g.keys.Perm (entry :: L) := by
+          apply (List.perm_ext_iff_of_nodup hkn (List.nodup_cons.mpr ⟨hle, hln⟩)).mpr
+          intro i; rw [hkl i]; simp
+        simpa using this.length_eq
+      have hmono := run_len_mono cfg rest g' (liveAfter L st.batch) hall'
+      have hroom : g.keys.length + st.batch.length ≤ cfg.degreeBound + 1 := by
+        have : (liveAfter L st.batch).length = L.length + st.batch.length := by rw [hL']; simp
+        omega
+      have hB' := apply_inserts_BInv cfg st.ds hR st.ord g g' st.batch hB (hall st List.mem_cons_self) hnd1
+        (hfr st List.mem_cons_self) hroom hg'
+      apply ih g' _ hWF' hB' hall' hnd2 ?_ hsmall
+      intro st' hst' c hc hm
+      obtain ⟨_, _, _, hkl', _⟩ := (C10_wf_meaning_aux _ g' _).mp hWF'
+      rcases (hkl' c.id).mp hm with h | h
+      · exact hfr st' (List.mem_cons_of_mem _ hst') c hc (h ▸ (hkl entry).mpr (Or.inl rfl))
+      · rw [hL'] at h
+        rcases List.mem_append.mp h with h | h
+        · exact hfr st' (List.mem_cons_of_mem _ hst') c hc ((hkl _).mpr (Or.inr h))
+        · exact hnd3 c.id h c.id (List.mem_map.mpr ⟨c, List.mem_flatMap.mpr ⟨st', hst', hc⟩, rfl⟩) rfl
+
+
 end Sema.C03
